@@ -2,10 +2,10 @@ CONSTANTS
   Model = "univ"
   MaxSteps = 3
   Hist = TRUE
-  AllowDie = FALSE
+  AllowDie = TRUE
   TransOnlyAsserted = FALSE
   TransOutOnly = FALSE
   NoInverseOfInferred = FALSE
   DirectSuperOnly = FALSE
 SPECIFICATION Spec
-CONSTRAINT Emit
+CONSTRAINT EmitDie
